@@ -61,6 +61,7 @@ type Script struct {
 	// C17: binder-only simulation (replaces world/ops)
 	C17 *C17Script `json:"c17,omitempty"`
 	C20 *C20Script `json:"c20,omitempty"`
+	C18 *C18Script `json:"c18,omitempty"`
 }
 
 func (s *Script) JSON() string {
@@ -223,6 +224,9 @@ func RunScript(t *testing.T, s *Script, oracles []Oracle, keepTrace bool) (res *
 	}
 	if s.C20 != nil {
 		return runC20(t, s.C20)
+	}
+	if s.C18 != nil {
+		return runC18(t, s.C18)
 	}
 	func() {
 		defer func() {
